@@ -343,6 +343,11 @@ def d_cleanup_keeps_reference(ctx, t, rule="C06.d.cleanup-keeps-reference"):
                 te = p.test
                 conj += list(te.values) if isinstance(te, ast.BoolOp) and isinstance(te.op, ast.And) else [te]
         ok = any(re.sub(r"\s", "", src(c)) in ("flow_state.activated==0", "notflow_state.activated", "flow_state.activated<=0", "flow_state.activated<1") for c in conj)
+        # alternatively the clean-up never discards an instance that is still the parent of a kept instance: every restarted instance of an activated flow names the
+        # reference instance as its parent, so the reference survives as long as the flow is alive
+        protects = any(isinstance(i_, ast.If) and re.search(r"parent_uid\s+in\s+\w+", src(i_.test)) and any(
+            isinstance(c_, ast.Call) and isinstance(c_.func, ast.Attribute) and c_.func.attr in ("discard", "remove") and isinstance(c_.func.value, ast.Name) for c_ in ast.walk(i_)) for i_ in ast.walk(fn))
+        ok = ok or protects
         ctx.check(rule, SM, fn.name, first_line(a, 70), ok,
                   "a flow state is collected only if `activated == 0` (a necessary conjunct of the removal condition)" if ok else
                   "an ended flow state can be collected while `activated > 0`: the reference instance that carries the activation counter disappears, the activator's end no longer "
